@@ -891,7 +891,8 @@ class Merger:
             self.logger.debug(
                 "Merged document is now:", prefix="Merger::merge_with:  ",
                 data=self.data, footer="     ***** ***** *****")
-            if isinstance(rhs, (dict, list, CommentedSet, set)):
+            if (insert_at.is_root
+                    and isinstance(rhs, (dict, list, CommentedSet, set))):
                 # Only Scalar values need further processing
                 return
 
